@@ -411,13 +411,16 @@ func TestGenC12(t *testing.T) {
 	{
 		var wg sync.WaitGroup
 		var mu sync.Mutex
+		// (the -over-grpc cases put a real gRPC client and server between the library and the mailboxes: a client
+		// stream's Send only queues the message, and cancelling the stream's context drops what is still queued)
 		for _, closer := range []string{"client", "server", "client-relay-send-down", "server-relay-send-down",
-			"client-relay-unreachable-send-down", "server-relay-unreachable-send-down"} {
+			"client-relay-unreachable-send-down", "server-relay-unreachable-send-down",
+			"client-over-grpc", "server-over-grpc", "client-over-grpc-2", "server-over-grpc-2"} {
 			wg.Add(1)
 			go func(closer string) {
 				defer wg.Done()
 				rr := r.sub(len(closer) + 4242)
-				c, s, cleanup, relay, err := kitPairRelay(rr)
+				c, s, cleanup, relay, err := kitPairRelayOver(rr, strings.Contains(closer, "over-grpc"))
 				if cleanup != nil {
 					defer func() {
 						// closing everything must terminate too (not in a bubble: no watchdog here)
@@ -503,8 +506,11 @@ func TestGenC12(t *testing.T) {
 				}
 				took := time.Since(t0)
 				mu.Lock()
-				q.check(returned && rerr != nil, "c12:mailbox-peer-not-told:closer="+closer, func() string {
-					return fmt.Sprintf("%s closed its mailbox connection over a working relay; the peer's blocked Read returned=%v err=%v after %v (keepalive alone would take about 10 s)", closer, returned, rerr, took)
+				relay.mu.Lock()
+				finIn, finOut := relay.grpcFinReceived, relay.grpcFinForwarded
+				relay.mu.Unlock()
+				q.check(returned && rerr != nil, "c12:mailbox-peer-not-told:closer="+strings.TrimSuffix(closer, "-2"), func() string {
+					return fmt.Sprintf("%s closed its mailbox connection over a working relay; the peer's blocked Read returned=%v err=%v after %v (keepalive alone would take about 10 s); FIN packets that reached the relay's gRPC SendStream handler: %d, forwarded by it: %d", closer, returned, rerr, took, finIn, finOut)
 				})
 				mu.Unlock()
 			}(closer)
